@@ -399,6 +399,22 @@ func (rg *registry) resize(requiredSize int) { // +inline-start
 	rg.forceResize(newSize)
 } // +inline-end
 
+// ensure makes room for requiredSize values like checkSize, but reports
+// false instead of raising an overflow when they cannot fit.
+func (rg *registry) ensure(requiredSize int) bool {
+	if requiredSize > cap(rg.array) {
+		newSize := requiredSize + rg.growBy
+		if newSize > rg.maxSize {
+			newSize = rg.maxSize
+		}
+		if newSize < requiredSize {
+			return false
+		}
+		rg.forceResize(newSize)
+	}
+	return true
+}
+
 func (rg *registry) forceResize(newSize int) {
 	newSlice := make([]LValue, newSize)
 	copy(newSlice, rg.array[:rg.top]) // should we copy the area beyond top? there shouldn't be any valid values there so it shouldn't be necessary.
